@@ -31,7 +31,8 @@
 EXTENDS Integers, Sequences, FiniteSets, TLC, Json
 
 CONSTANTS RawT,      \* raw type letters used for scalar / array fields
-          ArrN,      \* array counts
+          ArrN,      \* array counts of raw members
+          NestN,     \* array counts of members that are definitions (needs "nestarr" in Feat)
           Ords,      \* subset of {"", "<", ">"}: order literal on fields
           DefOrds,   \* subset of {"", ">"}: order= keyword of a definition
           DefKinds,  \* subset of {"struct", "packed", "union"}
@@ -51,8 +52,9 @@ BitSplitsNone  == {}
 BitSplitsSmall == {<<3, 5>>, <<1, 7, 8>>}
 BitSplitsFull  == {<<8>>, <<3, 5>>, <<1, 7, 8>>, <<2, 4, 3, 1, 6>>, <<3, 5, 20>>, <<4, 28, 31>>, <<12, 20, 32>>}
 
-VARIABLES stk, phase, psz, vcl, pend
-vars == <<stk, phase, psz, vcl, pend>>
+VARIABLES stk, phase, psz, vcl, pend,
+          img    \* byte image of the finished case (computed once, when the walk finishes)
+vars == <<stk, phase, psz, vcl, pend, img>>
 
 -----------------------------------------------------------------------------
 (* generic helpers *)
@@ -494,10 +496,10 @@ AddRaw == /\ phase = "build" /\ pend = "raw"
           /\ \E t \in FieldT, n \in {0} \cup ArrN, o \in Ords :
                /\ (o # "" => RawSize(t, 64) > 1)          \* an order literal on a byte is noise
                /\ Push(RawF(t, n, o))
-          /\ pend' = "" /\ UNCHANGED <<phase, psz, vcl>>
+          /\ pend' = "" /\ UNCHANGED <<phase, psz, vcl, img>>
 AddTypedef == /\ phase = "build" /\ pend = "td"
               /\ \E t \in IntT, n \in {0} \cup ArrN : Push(TdF(t, n, ""))
-              /\ pend' = "" /\ UNCHANGED <<phase, psz, vcl>>
+              /\ pend' = "" /\ UNCHANGED <<phase, psz, vcl, img>>
 AddBits == /\ phase = "build" /\ pend = "bits"
            /\ \E t \in BitT, b \in BitSplits, o \in Ords, sp \in BOOLEAN :
                 /\ (o # "" => RawSize(t, 64) > 1)
@@ -505,7 +507,7 @@ AddBits == /\ phase = "build" /\ pend = "bits"
                 /\ (sp => ~LastIsBits /\ Len(b) > 1)
                 /\ (~sp /\ Len(b) = 1 => ~LastIsBits)     \* a lone 1-sub-field line would be joined to the previous unit
                 /\ Push(BitsF(t, o, b, sp))
-           /\ pend' = "" /\ UNCHANGED <<phase, psz, vcl>>
+           /\ pend' = "" /\ UNCHANGED <<phase, psz, vcl, img>>
 AddVar == /\ phase = "build" /\ pend = "var"
           /\ \/ /\ "var" \in Feat /\ \E t \in VarElemT, o \in Ords : (o # "" => RawSize(t, 64) > 1) /\ Push(VarF(t, o))
              \/ /\ "cnt" \in Feat /\ \E t \in VarElemT, ct \in CntT, o \in Ords :
@@ -516,16 +518,17 @@ AddVar == /\ phase = "build" /\ pend = "var"
                      /\ (o # "" => RawSize(t, 64) > 1)
                      /\ Push(BoundF(t, o, r))
              \/ /\ "leb" \in Feat /\ \E t \in RawT \cap {"I", "i"} : Push(LebF(t))
-          /\ pend' = "" /\ UNCHANGED <<phase, psz, vcl>>
+          /\ pend' = "" /\ UNCHANGED <<phase, psz, vcl, img>>
 Open == /\ phase = "build" /\ pend = "open"
         /\ \E kind \in DefKinds, ord \in DefOrds : stk' = Append(stk, NewDef(kind, ord))
-        /\ pend' = "" /\ UNCHANGED <<phase, psz, vcl>>
+        /\ pend' = "" /\ UNCHANGED <<phase, psz, vcl, img>>
 Close == /\ phase = "build" /\ pend = "close"
-         /\ \E n \in {0} \cup (IF "nestarr" \in Feat /\ ~HasVar(Top) THEN ArrN ELSE {}) :
+         /\ \E n \in {0} \cup (IF "nestarr" \in Feat /\ ~HasVar(Top) THEN NestN ELSE {}) :
               stk' = [SubSeq(stk, 1, Len(stk) - 1) EXCEPT ![Len(stk) - 1].fs = Append(@, NestF(Top, n))]
-         /\ pend' = "" /\ UNCHANGED <<phase, psz, vcl>>
+         /\ pend' = "" /\ UNCHANGED <<phase, psz, vcl, img>>
 Finish == /\ phase = "build" /\ pend = "finish"
           /\ phase' = "done" /\ psz' \in PS /\ vcl' \in VCs
+          /\ img' = Pack(stk[1], GenVals(stk[1], vcl', 1, psz'), psz', Dev)
           /\ pend' = "" /\ UNCHANGED stk
 (* first stage of every step: which production is taken (keeps -simulate balanced between kinds) *)
 VarFeat == Feat \cap {"var", "cnt", "bound", "leb"}
@@ -540,10 +543,10 @@ Pick == /\ phase = "build" /\ pend = ""
                           [] k = "open" -> Room /\ Len(stk) <= MaxDepth
                           [] k = "close" -> Len(stk) > 1 /\ Len(Top.fs) > 0
                           [] k = "finish" -> Len(stk) = 1 /\ Len(Top.fs) >= MinF}
-        /\ UNCHANGED <<stk, phase, psz, vcl>>
+        /\ UNCHANGED <<stk, phase, psz, vcl, img>>
 
 Init == /\ \E kind \in DefKinds, ord \in DefOrds : stk = <<NewDef(kind, ord)>>
-        /\ phase = "build" /\ psz = 0 /\ vcl = "none" /\ pend = ""
+        /\ phase = "build" /\ psz = 0 /\ vcl = "none" /\ pend = "" /\ img = <<>>
 Next == Pick \/ AddRaw \/ AddTypedef \/ AddBits \/ AddVar \/ Open \/ Close \/ Finish
 Spec == Init /\ [][Next]_vars
 
@@ -552,7 +555,7 @@ Spec == Init /\ [][Next]_vars
 TheDef == stk[1]
 Vals   == GenVals(TheDef, vcl, 1, psz)
 Filler == [i \in 1..24 |-> 238]          \* bytes after the structure: must not influence anything
-Image  == Pack(TheDef, Vals, psz, Dev)
+Image  == img
 Fixed  == ~HasVar(TheDef)
 RECURSIVE HasUnion(_)
 HasUnion(d) == d.kind = "union" \/ \E i \in 1..Len(d.fs) : d.fs[i].k = "nest" /\ HasUnion(d.fs[i].d)
@@ -574,7 +577,7 @@ LayoutOK  == phase = "done" /\ Fixed => WellLaid(TheDef, psz)
 SizeOK    == phase = "done" /\ Fixed => Len(Image) = SizeOf(TheDef, psz, Dev)
 RoundTrip == phase = "done" =>
                LET r == Unpack(TheDef, Image \o Filler, 0, psz, Dev) IN
-               /\ r.n = Len(Image)
+               /\ r.n = Len(Image) /\ r.x <= Len(Image)
                /\ (~HasUnion(TheDef) => r.v = Vals)
                /\ Pack(TheDef, r.v, psz, Dev) = Image
 (* 32-bit layout never exceeds the 64-bit one *)
@@ -605,9 +608,15 @@ CanMatter(x) ==
     [] x = "PackedTopAlign"  -> TheDef.packed
     [] x = "SLebU"           -> HasSLeb(TheDef)
     [] x = "PadAtEnd"        -> HasLoose(TheDef)
-    [] x \in {"UnionNoPad", "UnionIdxNative"} -> HasUnion(TheDef)
+    [] x = "UnionNoPad"      -> HasUnion(TheDef)
+    [] x = "UnionIdxNative"  -> psz = 32 /\ HasUnion(TheDef) /\ HasT(TheDef, {"l", "L", "P"})
 LayoutDevs == IF HasPackedNest(TheDef) \/ TheDef.packed THEN {{"PackedNestAlign"}} ELSE {}
-UnpDevNames == {x \in {"AbsAlign", "ArrLenCount", "LenNative", "SLongU", "SLebU", "PackedNestAlign"} : CanMatter(x)}
+(* The two sign deviations (SLongU, SLebU) only change how the bytes of one scalar are read, never *)
+(* where: instead of enumerating them in the subsets below every prediction comes in two readings *)
+(* (vals: signs as defined; valsU: both sign deviations on) and the replayer accepts, member by   *)
+(* member, either reading, naming the deviation whenever it needed the second one.                *)
+SignDevs == {x \in {"SLongU", "SLebU"} : CanMatter(x)}
+UnpDevNames == {x \in {"AbsAlign", "ArrLenCount", "LenNative", "PackedNestAlign"} : CanMatter(x)}
 PackDevNames == {x \in {"PadAtEnd", "UnionNoPad", "UnionIdxNative", "PackedNestAlign"} : CanMatter(x)}
 SetToSeq(S) == LET RECURSIVE F(_) F(T) == IF T = {} THEN <<>> ELSE LET x == CHOOSE x \in T : TRUE IN <<x>> \o F(T \ {x}) IN F(S)
 (* offsets in the shape of StructCore.offsets(): one <<offset, size>> per field, and for a bitfield *)
@@ -619,12 +628,19 @@ FlatOffs(d, ps, D) ==
 (* the alignment amoco can be asked for is MemberAlign of the top-level definition's members as  *)
 (* seen from outside: AlignOf                                                                     *)
 Lay(D) == [size |-> SizeOf(TheDef, psz, D), align |-> AlignOf(TheDef, psz, D), offs |-> FlatOffs(TheDef, psz, D)]
+RECURSIVE Slim(_)
+Slim(d) == [kind |-> d.kind, packed |-> d.packed,
+            fs |-> [i \in 1..Len(d.fs) |->
+                      LET f == d.fs[i] IN
+                      IF f.k = "nest" THEN [k |-> f.k, t |-> f.t, n |-> f.n, o |-> f.o, bits |-> f.bits, d |-> Slim(f.d)]
+                      ELSE [k |-> f.k, t |-> f.t, n |-> f.n, o |-> f.o, bits |-> f.bits]]]
 Case ==
   LET data == Image \o Filler
       exp  == Unpack(TheDef, data, 0, psz, {}).v
       lay  == Lay({})
-      bytesOK == Pack(TheDef, exp, psz, {})
-  IN [ps |-> psz, vc |-> vcl, def |-> TheDef,
+      two(D) == IF SignDevs = {} THEN <<Unpack(TheDef, data, 0, psz, D)>>
+                ELSE <<Unpack(TheDef, data, 0, psz, D), Unpack(TheDef, data, 0, psz, D \cup SignDevs)>>
+  IN [ps |-> psz, vc |-> vcl, def |-> Slim(TheDef),
       decls |-> Decls(TheDef, "D"), typedefs |-> SetToSeq(Typedefs(TheDef)),
       fixed |-> Fixed,
       lay |-> IF Fixed THEN lay ELSE [size |-> 0 - 1, align |-> 0, offs |-> <<>>],
@@ -632,17 +648,19 @@ Case ==
                  ELSE <<>>,
       data |-> data, nbytes |-> Len(Image),
       vals |-> exp,
-      valsDev |-> LET U    == [D \in (SUBSET UnpDevNames) \ {{}} |-> Unpack(TheDef, data, 0, psz, D)]
-                      cands == {D \in DOMAIN U : U[D].v # exp}
+      valsU |-> IF SignDevs = {} THEN <<>> ELSE Unpack(TheDef, data, 0, psz, SignDevs).v,
+      signDevs |-> SetToSeq(SignDevs),
+      valsDev |-> LET U    == [D \in (SUBSET UnpDevNames) \ {{}} |-> two(D)]
+                      cands == {D \in DOMAIN U : U[D][1].v # exp}
                       \* keep, for every distinct wrong result, the smallest deviation sets producing it
-                      minimal == {D \in cands : ~\E E \in cands : E # D /\ E \subseteq D /\ U[E].v = U[D].v
-                                                                   /\ (U[E].x > Len(data)) = (U[D].x > Len(data))}
-                  IN SetToSeq({[devs |-> SetToSeq(D), vals |-> U[D].v, oob |-> U[D].x > Len(data),
-                                trig |-> UnpTrig(TheDef, U[D].v, psz, TRUE)] : D \in minimal}),
+                      minimal == {D \in cands : ~\E E \in cands : E # D /\ E \subseteq D /\ U[E][1].v = U[D][1].v
+                                                                   /\ (U[E][1].x > Len(data)) = (U[D][1].x > Len(data))}
+                  IN SetToSeq({[devs |-> SetToSeq(D), vals |-> U[D][1].v, oob |-> U[D][1].x > Len(data),
+                                valsU |-> IF SignDevs = {} THEN <<>> ELSE U[D][2].v,
+                                trig |-> UnpTrig(TheDef, U[D][1].v, psz, TRUE)] : D \in minimal}),
       unpTrig |-> UnpTrig(TheDef, exp, psz, TRUE),
-      bytes |-> bytesOK,
       bytesDev |-> LET P    == [D \in (SUBSET PackDevNames) \ {{}} |-> Pack(TheDef, exp, psz, D)]
-                       cands == {D \in DOMAIN P : P[D] # bytesOK}
+                       cands == {D \in DOMAIN P : P[D] # Image}
                        minimal == {D \in cands : ~\E E \in cands : E # D /\ E \subseteq D /\ P[E] = P[D]}
                    IN SetToSeq({[devs |-> SetToSeq(D), bytes |-> P[D]] : D \in minimal}),
       packTrig |-> PackTrig(TheDef, exp)]
